@@ -229,3 +229,39 @@ func VerifC15NegAbsBool() {
 	verifAssert(err == nil, "no error")
 	verifAssert(t == Object(Bool(f != 0)), "truth value of a float is f != 0 (nan is true)")
 }
+
+// float % float and divmod: C's fmod has no usable SMT counterpart (DESIGN.md 8.3), so math.Mod is a
+// fresh value constrained by fmod's contract, and what is decided is Python's rule around it: for
+// finite operands the remainder is finite, no larger than the divisor in magnitude, carries the
+// divisor's sign (a zero remainder too), and divmod's quotient is a whole number with the same remainder.
+//
+//verif:property C15
+//verif:timeout 600 2400
+//verif:havoc math.Mod:contract
+//verif:expect called
+func VerifC15FloatMod() {
+	x := verifFloat64("x")
+	y := verifFloat64("y")
+	verifAssume(!math.IsNaN(x) && !math.IsInf(x, 0) && !math.IsNaN(y) && !math.IsInf(y, 0))
+	got, err := Mod(Float(x), Float(y))
+	verifReach("called")
+	if y == 0 {
+		verifAssert(err != nil && c07ErrIs(err, ZeroDivisionError), "zero divisor raises ZeroDivisionError")
+		return
+	}
+	verifAssert(err == nil, "no error")
+	rf, ok := got.(Float)
+	verifAssert(ok, "float % float is a float")
+	r := float64(rf)
+	verifAssert(!math.IsNaN(r) && !math.IsInf(r, 0), "finite operands give a finite remainder")
+	verifAssert(math.Abs(r) <= math.Abs(y), "the remainder is no larger than the divisor")
+	verifAssert(math.Signbit(r) == math.Signbit(y), "the remainder carries the sign of the divisor (a zero remainder too)")
+	q, r2, err := DivMod(Float(x), Float(y))
+	verifAssert(err == nil, "no error")
+	qf, ok1 := q.(Float)
+	r2f, ok2 := r2.(Float)
+	verifAssert(ok1 && ok2, "divmod of floats gives floats")
+	verifAssert(!math.IsNaN(float64(qf)), "the quotient is a number")
+	verifAssert(math.IsInf(float64(qf), 0) || math.Floor(float64(qf)) == float64(qf), "the quotient of divmod is a whole number")
+	verifAssert(math.Float64bits(float64(r2f)) == math.Float64bits(r), "divmod's remainder is the % remainder")
+}
